@@ -161,11 +161,13 @@ example : (run Skeleton.current init
     local closure (checked against the regenerated skeleton).  `setErrEnter` is therefore an
     always-enabled step of M2, as the theorems above assume; a loop that first had to take a lock
     held by application code (e.g. the remote-enumeration callback inside which the in-flight call
-    was issued) would never close the pending-call table. -/
+    was issued) would never close the pending-call table.  Likewise `setErr` itself takes no lock but
+    its own (`seOnlyOwnLock`). -/
 theorem C03_read_failure_reaches_setErr :
     Skeleton.current.reqLoopExitsOnReadErr = true ∧ Skeleton.current.respLoopExitsOnReadErr = true ∧
     Skeleton.current.respLoopSetErrOnReadErr = true ∧
-    Skeleton.current.reqLoopBlocksOnlyOnRead = true ∧ Skeleton.current.respLoopBlocksOnlyOnRead = true := by decide
+    Skeleton.current.reqLoopBlocksOnlyOnRead = true ∧ Skeleton.current.respLoopBlocksOnlyOnRead = true ∧
+    Skeleton.current.seOnlyOwnLock = true := by decide
 
 end Panrpc.Ep
 
